@@ -198,9 +198,10 @@ def known_class(case):
     fam = case[0]
     if fam == "np" and case[4][0] == "k" and case[1] != "str" and case[5] > len(case[4][1]) - 1:
         return "known-numeric-divisions-upsample"  # interpolated divisions collapse; .npartitions keeps claiming k
-    if fam == "div" and case[4][0] == "k" and case[6] and case[5][0] < case[4][1][0]:
-        a = case[4][1]
-        return "force-lower-left-end" + ("-single-label-last" if len(a) >= 2 and a[-1] == a[-2] else "")
+    if fam == "div" and case[4][0] == "k" and case[6]:
+        a, b = case[4][1], case[5]
+        if len(a) == 2 and a[0] == a[1] and len(b) >= 4 and b[-1] == b[-2] == a[-1]:
+            return "force-single-label-source-to-repeated-last"  # source divisions (x, x), target (..., .., x, x)
     return None
 
 
